@@ -13,7 +13,7 @@ func init() {
 	register(&Prop{
 		ID:    "C12",
 		Level: "exploration",
-		Rule:  "case = a history of 1..12 put/remove/probe statements (expressions built from their intended values; duplicate keys, `key` in value expressions, some expressions failing at evaluation time) with a poll pattern of 0..6 extra Next/Batch polls after each statement, executed against a simulated store and a model map; then, separately, the same history re-executed once per (write call, fault kind) with that call faulted. distinct_nontrivial counts distinct (statement kind, pair count, has-duplicate, uses-key, failing-position, poll pattern, drain mode) tuples among statements that reached storage or failed at evaluation.",
+		Rule:  "case = a history of 1..12 put/remove/probe statements (expressions built from their intended values; duplicate keys, `key` in value expressions, some expressions failing at evaluation time) with a poll pattern of 0..6 extra Next/Batch polls after each statement, executed against a simulated store and a model map; then, separately, the same history re-executed once per (write call, fault kind) with that call faulted. distinct_nontrivial counts distinct (statement kind, pair count, has-duplicate, uses-key, failing-position, poll pattern, drain mode) tuples among statements that reached storage or failed at evaluation. A rare big family issues PUTs of 1100..66000 pairs (one key up to thousands of times; an expression failing at evaluation time far into the list; 70 KiB..6 MiB of payload; keys and values of up to 70000 bytes) followed by REMOVEs of the same order, probes in between.",
 		Assumptions: []string{
 			"storage contract of DESIGN.md §3.3; writes apply atomically in argument order",
 			"the harness's intended values are correct by construction for the restricted expression forms used (literal, integer arithmetic, concatenation, upper/lower ASCII, str, key)",
@@ -317,9 +317,22 @@ func runC12(sc *Scenario, st *Stats) []Violation {
 
 	// --- fault sub-check: every write call x every kind ----------------------
 	baseLog := w.H.log
+	nw, wi := 0, -1
+	for _, e := range baseLog {
+		if isMutating(e.Op) && e.Stmt < judged {
+			nw++
+		}
+	}
 	for _, e := range baseLog {
 		if !isMutating(e.Op) || e.Stmt >= judged {
 			continue
+		}
+		wi++
+		if nw > 150 && len(sc.Faults) == 0 && !(wi < 8 || wi >= nw-8 || wi%(nw/25+1) == 0) {
+			continue // thousands of write calls (only a library that splits its writes issues them): both ends and about 25 evenly spaced
+		}
+		if len(vs) >= 12 {
+			break // one case, one cause
 		}
 		kinds := []Fault{{Call: e.Seq, Kind: FErr}, {Call: e.Seq, Kind: FApplied}}
 		if e.Op == OpBPut || e.Op == OpBDel {
@@ -349,8 +362,9 @@ func runC12(sc *Scenario, st *Stats) []Violation {
 			fv := runC12Fault(sc, f, e, st)
 			for i := range fv {
 				if len(sc.Faults) == 0 {
-					fv[i].Pinned = cloneScenario(sc)
-					fv[i].Pinned.Faults = []Fault{f}
+					c := *sc // statements and store are shared, not copied: nothing mutates them
+					c.Faults = []Fault{f}
+					fv[i].Pinned = &c
 				}
 			}
 			vs = append(vs, fv...)
